@@ -1,7 +1,7 @@
 (** C18 — AppPoll / AppDrop preserve the invariant; [Inv_step], [Inv_run]; the theorems about all
     reachable states of Model/AsyncConn.v. *)
 From QV Require Import Lib.Tac Model.AsyncConn Proofs.AsyncConnInv Proofs.AsyncConnLemmas Proofs.AsyncConnProofs
-  Proofs.AsyncConnHandles.
+  Proofs.AsyncConnHandles Proofs.AsyncConnFacts.
 From Coq Require Import Arith.
 
 (** * AppPoll *)
@@ -229,3 +229,106 @@ Qed.
 Theorem Inv_run : forall ls, ok ls -> Inv (run ls).
 Proof. intros ls Hok; apply Inv_run_from; [exact Hok|apply Inv_init]. Qed.
 
+
+(** * 1. No lost wake-up *)
+Lemma Inv0_no_lost_wakeup : forall s, Inv0 s -> forall t o,
+  pend s t = Some o -> cond s o = true -> runnable s t = true.
+Proof.
+  intros s HI t o Hp Hc. destruct (inv_wake s HI t o Hp) as [Hr|[_ Hc']]; [exact Hr|congruence].
+Qed.
+Theorem no_lost_wakeup : forall ls, ok ls -> forall t o,
+  pend (run ls) t = Some o -> cond (run ls) o = true -> runnable (run ls) t = true.
+Proof. intros ls Hok. apply Inv0_no_lost_wakeup, Inv_run, Hok. Qed.
+
+Theorem driver_no_lost_wakeup : forall ls, ok ls ->
+  driver_alive (run ls) = true -> drv_work (run ls) = true -> drv_runnable (run ls) = true.
+Proof. intros ls Hok Ha Hw. destruct (inv_drv _ (Inv_run ls Hok) Ha) as [_ H]. exact (H Hw). Qed.
+
+(** * 3. A close wakes everyone *)
+Lemma cond_closed : forall s o, closed s = true -> cond s o = true.
+Proof. intros s o Hc; destruct o; cbn [cond]; rewrite Hc, ?orb_true_r; reflexivity. Qed.
+Lemma closed_all_runnable : forall s, Inv0 s -> closed s = true -> forall t o,
+  pend s t = Some o -> runnable s t = true.
+Proof. intros s HI Hc t o Hp. eapply Inv0_no_lost_wakeup; eauto using cond_closed. Qed.
+
+Theorem close_wakes_everyone : forall ls, ok ls -> forall code t o,
+  pend (terminate (run ls) code) t = Some o -> runnable (terminate (run ls) code) t = true.
+Proof.
+  intros ls Hok code. apply closed_all_runnable; [|apply closed_terminate].
+  apply Inv0_terminate. apply Inv_run, Hok.
+Qed.
+Theorem close_wakes_everyone_AppClose : forall ls, ok ls -> (0 < nhandles (run ls))%Z -> forall t o,
+  pend (step' (run ls) AppClose) t = Some o -> runnable (step' (run ls) AppClose) t = true.
+Proof.
+  intros ls Hok Hn. apply closed_all_runnable.
+  - apply Inv_step; [reflexivity|apply Inv_run, Hok].
+  - unfold step', step; cbn [fst]. apply Z.ltb_lt in Hn; rewrite Hn. apply closed_close_conn.
+Qed.
+Lemma closed_drv_poll_lost : forall s code, driver_alive s = true -> closed (drv_poll s [PLost code]) = true.
+Proof.
+  intros s code Ha. unfold drv_poll. rewrite Ha; cbn [negb fold_left drv_event]. rewrite terminate_nf.
+  match goal with |- context [drained ?x] => destruct (drained x) end.
+  - apply closed_drop_ref. unfold closed; cbn_st. reflexivity.
+  - unfold closed; cbn_st. reflexivity.
+Qed.
+Theorem close_wakes_everyone_PLost : forall ls, ok ls -> driver_alive (run ls) = true -> forall code t o,
+  pend (step' (run ls) (DrvPoll [PLost code])) t = Some o ->
+  runnable (step' (run ls) (DrvPoll [PLost code])) t = true.
+Proof.
+  intros ls Hok Ha code. apply closed_all_runnable.
+  - apply Inv_step; [reflexivity|apply Inv_run, Hok].
+  - unfold step', step; cbn [fst]. apply closed_drv_poll_lost, Ha.
+Qed.
+
+(** * 4. Cancellation *)
+Theorem cancel_safe_ops_lose_nothing : forall ls, ok ls ->
+  (forall k, discarded (run ls) k = false -> arrived (run ls) k = delivered (run ls) k ++ rx (run ls) k) /\
+  d_arrived (run ls) = d_delivered (run ls) ++ dq (run ls).
+Proof.
+  intros ls Hok. pose proof (Inv_run ls Hok) as HI. split; [apply (inv_data _ HI)|apply (inv_dgram _ HI)].
+Qed.
+
+Theorem drop_leaves_no_notify_registration : forall ls t, ok ls ->
+  forall n, nwait (step' (run ls) (AppDrop t)) n t = false.
+Proof.
+  intros ls t Hok n.
+  assert (HI : Inv (step' (run ls) (AppDrop t))) by (apply Inv_step; [reflexivity|apply Inv_run, Hok]).
+  destruct (nwait (step' (run ls) (AppDrop t)) n t) eqn:E; [|reflexivity].
+  destruct (inv_nw _ HI _ _ E) as (o & Hp & _).
+  unfold step', step in Hp; cbn [fst] in Hp. rewrite pend_release, Nat.eqb_refl in Hp. discriminate.
+Qed.
+
+Theorem recv_drop_assert : forall ls k, ok ls -> all_read (run ls) k = true -> aget (br (run ls)) k = None.
+Proof.
+  intros ls k Hok Har. pose proof (Inv_run ls Hok) as HI.
+  destruct (aget (br (run ls)) k) as [t|] eqn:E; [|reflexivity].
+  assert (Hne : aget (br (run ls)) k <> None) by (rewrite E; discriminate).
+  destruct (inv_br_end _ HI k Hne) as [He _]. rewrite (inv_allread_end _ HI k Har) in He. discriminate.
+Qed.
+
+Lemma release_idem : forall s t, release (release s t) t = release s t.
+Proof.
+  intros s t. unfold release at 1. rewrite pend_release, Nat.eqb_refl. reflexivity.
+Qed.
+Lemma poll_ok_release : forall s t o n, poll_ok s t o n = true -> poll_ok (release s t) t o n = true.
+Proof.
+  intros s t o n Hok. unfold release. destruct (pend s t) as [o'|]; [|exact Hok].
+  destruct o; cbn [poll_ok] in *; destruct o'; cbn [notify_of]; cbn_st; try exact Hok;
+    unfold upd; repeat (apply andb_true_iff in Hok as [Hok ?]); repeat (apply andb_true_iff; split); auto;
+    destruct (Nat.eqb_spec s0 s1); auto.
+Qed.
+Theorem drop_then_fresh_poll_same_result : forall s t o n,
+  poll_ok s t o n = true ->
+  snd (step (step' s (AppDrop t)) (AppPoll t o n)) = snd (step s (AppPoll t o n)).
+Proof.
+  intros s t o n Hok. unfold step', step; cbn [fst]. unfold app_poll.
+  rewrite (poll_ok_release _ _ _ _ Hok), Hok, release_idem. reflexivity.
+Qed.
+
+(** * 5. Teardown *)
+Theorem refcount_tracks_handles : forall ls, ok ls ->
+  (driver_alive (run ls) = true -> refcnt (run ls) = nhandles (run ls)) /\
+  (driver_alive (run ls) = false -> refcnt (run ls) = (nhandles (run ls) - 1)%Z).
+Proof.
+  intros ls Hok. pose proof (Inv_run ls Hok) as HI. split; [apply (inv_ref_alive _ HI)|apply (inv_ref_dead _ HI)].
+Qed.
